@@ -473,6 +473,140 @@ theorem clean_right (x y : Str) (hx : x ≠ []) (hy : isAbs y = false) :
   rw [h1, h2]
   rfl
 
+/-- a leading `./` on the right part is invisible to Clean -/
+theorem clean_dot_slash (x j : Str) (hx : x ≠ []) : clean (x ++ '/' :: '.' :: '/' :: j) = clean (x ++ '/' :: j) := by
+  have h1 : isAbs (x ++ '/' :: '.' :: '/' :: j) = isAbs (x ++ '/' :: j) := by
+    rw [isAbs_append _ _ hx, isAbs_append _ _ hx]
+  have h2 : cleanStack (x ++ '/' :: '.' :: '/' :: j) = cleanStack (x ++ '/' :: j) := by
+    unfold cleanStack
+    rw [h1, splitSlash_append, splitSlash_append]
+    have : splitSlash ('.' :: '/' :: j) = dot :: splitSlash j := by
+      have := splitSlash_append ['.'] j
+      simpa [splitSlash, dot] using this
+    rw [this, List.foldl_append, List.foldl_append, List.foldl_cons, step_skip _ _ dot (.inr rfl)]
+  show render (isAbs (x ++ '/' :: '.' :: '/' :: j)) (cleanStack (x ++ '/' :: '.' :: '/' :: j)).reverse = _
+  rw [h1, h2]
+  rfl
+
+/-! ### Clean never produces `//` -/
+
+/-- the string contains two consecutive slashes -/
+def hasDS : Str → Bool
+  | a :: b :: r => (a = '/' && b = '/') || hasDS (b :: r)
+  | _ => false
+
+theorem hasDS_cons_of (c : Char) (x : Str) (h : hasDS x = true) : hasDS (c :: x) = true := by
+  cases x with
+  | nil => simp [hasDS] at h
+  | cons b r => simp [hasDS, h]
+
+theorem hasDS_noSlash_append (a t : Str) (ha : '/' ∉ a) :
+    hasDS (a ++ '/' :: t) = ((t.head? = some '/') || hasDS t) := by
+  induction a with
+  | nil =>
+    cases t with
+    | nil => simp [hasDS]
+    | cons b r => simp [hasDS]
+  | cons c a' ih =>
+    simp only [List.mem_cons, not_or] at ha
+    have hc : c ≠ '/' := fun e => ha.1 e.symm
+    rw [← ih ha.2]
+    cases a' with
+    | nil => simp [hasDS, hc]
+    | cons d r => simp [hasDS, hc]
+
+theorem hasDS_noSlash (a : Str) (ha : '/' ∉ a) : hasDS a = false := by
+  induction a with
+  | nil => rfl
+  | cons c a' ih =>
+    simp only [List.mem_cons, not_or] at ha
+    have hc : c ≠ '/' := fun e => ha.1 e.symm
+    cases a' with
+    | nil => simp [hasDS]
+    | cons d r => simp [hasDS, hc, ih ha.2]
+
+theorem joinSlash_head_not_slash (l : List Str) (hne : ∀ c ∈ l, c ≠ []) (hs : ∀ c ∈ l, '/' ∉ c) :
+    (joinSlash l).head? ≠ some '/' := by
+  cases l with
+  | nil => simp [joinSlash]
+  | cons a r =>
+    have ha := hne a (by simp)
+    have has := hs a (by simp)
+    cases a with
+    | nil => exact absurd rfl ha
+    | cons ch at' =>
+      have hch : ch ≠ '/' := by intro e; apply has; simp [e]
+      cases r with
+      | nil => simp [joinSlash, hch]
+      | cons b r' => simp [joinSlash, hch]
+
+theorem hasDS_joinSlash (l : List Str) (hne : ∀ c ∈ l, c ≠ []) (hs : ∀ c ∈ l, '/' ∉ c) :
+    hasDS (joinSlash l) = false := by
+  induction l with
+  | nil => rfl
+  | cons a r ih =>
+    cases r with
+    | nil => simpa [joinSlash] using hasDS_noSlash a (hs a (by simp))
+    | cons b r' =>
+      simp only [joinSlash]
+      rw [hasDS_noSlash_append a _ (hs a (by simp))]
+      have h1 := joinSlash_head_not_slash (b :: r') (fun c hc => hne c (by simp [hc])) (fun c hc => hs c (by simp [hc]))
+      have h2 := ih (fun c hc => hne c (by simp [hc])) (fun c hc => hs c (by simp [hc]))
+      simp [h1, h2]
+
+theorem hasDS_clean (p : Str) : hasDS (clean p) = false := by
+  have hv := cleanStack_valid p
+  have hne : ∀ c ∈ (cleanStack p).reverse, c ≠ [] := fun c hc => valid_ne_nil hv c (by simpa using hc)
+  have hs : ∀ c ∈ (cleanStack p).reverse, '/' ∉ c := fun c hc => cleanStack_noSlash p c (by simpa using hc)
+  unfold clean render
+  cases isAbs p with
+  | true =>
+    simp only [if_true]
+    have h1 := joinSlash_head_not_slash _ hne hs
+    have h2 := hasDS_joinSlash _ hne hs
+    cases hj : joinSlash (cleanStack p).reverse with
+    | nil => simp [hasDS]
+    | cons b r =>
+      rw [hj] at h1 h2
+      simp only [List.head?_cons, ne_eq, Option.some.injEq] at h1
+      simp [hasDS, h1, h2]
+  | false =>
+    simp only [Bool.false_eq_true, if_false]
+    split
+    · simp [hasDS, dot]
+    · exact hasDS_joinSlash _ hne hs
+
+theorem hasDS_of_index (x : Str) : ∀ i, (indexOfGo [':', '/', '/'] x i).isSome = true → hasDS x = true := by
+  induction x with
+  | nil => intro i h; simp [indexOfGo] at h
+  | cons c cs ih =>
+    intro i h
+    simp only [indexOfGo] at h
+    split at h
+    · rename_i hp
+      cases cs with
+      | nil => simp [List.isPrefixOf] at hp
+      | cons d ds =>
+        cases ds with
+        | nil => simp [List.isPrefixOf] at hp
+        | cons e es =>
+          simp only [List.isPrefixOf, Bool.and_eq_true, beq_iff_eq] at hp
+          obtain ⟨_, h2, h3, _⟩ := hp
+          subst h2; subst h3
+          simp [hasDS]
+    · exact hasDS_cons_of c cs (ih (i + 1) h)
+
+theorem schemeSep_eq : schemeSep = [':', '/', '/'] := by decide
+
+theorem hasDS_of_scheme (x : Str) (h : containsStr schemeSep x = true) : hasDS x = true := by
+  rw [schemeSep_eq] at h
+  exact hasDS_of_index x 0 (by simpa [containsStr, indexOf] using h)
+
+theorem no_scheme_of_noDS (x : Str) (h : hasDS x = false) : containsStr schemeSep x = false := by
+  cases hc : containsStr schemeSep x with
+  | false => rfl
+  | true => rw [hasDS_of_scheme x hc] at h; cases h
+
 /-! ### join -/
 
 theorem join_of_ne (a b : Str) (ha : a ≠ []) : join a b = clean (a ++ '/' :: b) := by
